@@ -1,5 +1,5 @@
 #!/bin/bash
-# tools/seedmatrix_par.sh [tier] [workers] [seed-glob] — every seeded change against the check of
+# tools/seedmatrix_par.sh [tier] [workers] ['seed-glob seed-glob ...'] — every seeded change against the check of
 # its own property (and against the checks named in its meta.json), in parallel: each worker
 # has its own scratch worktree of /repo (VERIF_REPO) and its own copy of /verif, so /repo and
 # /verif/evidence are not touched. Writes /verif/seeded/MATRIX.txt. Scratch under /tmp is removed.
@@ -7,8 +7,9 @@ cd "$(dirname "$0")/.."
 TIER=${1:-quick}; NW=${2:-4}; GLOB=${3:-C*}
 V=$(pwd)
 jobs=/tmp/smx-jobs.txt; : > $jobs
-for d in seeded/$GLOB/; do
-  sid=$(basename $d); own=${sid:0:3}
+SEEDS=$(cd seeded && ls -d $GLOB 2>/dev/null)
+for sid in $SEEDS; do
+  d=seeded/$sid; own=${sid:0:3}
   ids="$own $(jq -r .caught_by $d/meta.json | grep -o 'C[0-9][0-9] quick' | cut -c1-3 | sort -u | grep -v $own | tr '\n' ' ')"
   for id in $ids; do echo "$sid $id" >> $jobs; done
 done
@@ -36,8 +37,8 @@ for w in $(seq 1 $NW); do worker $w & done
 wait
 out=seeded/MATRIX.txt
 [ "$GLOB" = "C*" ] && : > $out
-for d in seeded/$GLOB/; do
-  sid=$(basename $d); line="$sid:"
+for sid in $SEEDS; do
+  line="$sid:"
   for f in /tmp/smx-out/$sid-*; do [ -f "$f" ] && line="$line $(cut -d' ' -f2 $f)=$(cut -d' ' -f3 $f)"; done
   if [ "$GLOB" = "C*" ]; then echo "$line" >> $out; else echo "$line"; fi
 done
